@@ -58,6 +58,7 @@ type Runner struct {
 	OutOfOrderCommit, TombstoneHit, AncestorThenDescendant, DoubleCommit, AbandonedTxnSeen, AbandonedBlockSeen bool
 	MutatedAfterSet, MutatedAfterGet                                                                           int
 	Lookups, Hits, MustHits                                                                                    int
+	DirectBlockWrites                                                                                          int
 	lookedAt                                                                                                   map[string]bool // key@block looked up at state level
 	removedKeys                                                                                                map[string]bool
 }
@@ -91,7 +92,25 @@ func (r *Runner) start(b *Block) *liveBlock {
 	r.live[b.Hash] = lb
 	r.order = append(r.order, b.Hash)
 	r.logf("start %s (prev %q)", b.Hash, b.Prev)
+	r.direct(lb.bc, b, lb.model)
 	return lb
+}
+
+// direct applies the block's own writes (BlockCache.Set, outside any transaction).
+func (r *Runner) direct(bc *statecache.BlockCache, b *Block, model map[string]Entry) {
+	for _, w := range b.Direct {
+		v := r.H.Make(w.Val)
+		bc.Set(w.Key, v)
+		r.logf("block %s set %s=%s directly", b.Hash, w.Key, w.Val)
+		if model != nil {
+			model[w.Key] = Entry{Val: w.Val}
+		}
+		if r.H.Mutate != nil {
+			r.H.Mutate(v)
+			r.MutatedAfterSet++
+		}
+		r.DirectBlockWrites++
+	}
 }
 
 func (r *Runner) set(tc *statecache.TransactionCache, w Write, who string) {
@@ -394,6 +413,7 @@ func (r *Runner) tryCommit(lb *liveBlock) bool {
 func (r *Runner) twice(lb *liveBlock) {
 	b := lb.decl
 	bc2 := statecache.NewBlockCache(r.SC, statecache.Block{Round: b.Round, Hash: b.Hash, PrevHash: b.Prev})
+	r.direct(bc2, b, nil)
 	for i := range b.Txns {
 		tx := &b.Txns[i]
 		tc := statecache.NewTransactionCache(bc2)
